@@ -15,6 +15,10 @@ EXTRA_VALID = [
     'input A { b: B c: [A!] = [] } input B { a: A = {b: null} s: String = "q\\"uote" f: Float = 1 i: ID = 7 t: Boolean = true } type Query { f(a: A = {c: [{b: {s: "x"}}]}): Int }',
     'type Query { a: Int } extend type Query { b: Int } extend type Query { c: Int } extend type Query @dir directive @dir on OBJECT',
     'schema { query: Root } type Root { a: Int } extend schema { mutation: Mu } type Mu { m: Int }',
+    # a schema definition lists the roots exhaustively: a type that merely has a conventional root name is an ordinary type
+    'schema { query: Root } type Root { a: Int } type Mutation { m: Int } type Subscription { s: Int } type Query { q: Int }',
+    'schema { query: Query mutation: Writes } type Query { q: Mutation } type Writes { w: Int } type Mutation { m: Int }',
+    'schema { query: Root } type Root { a: Int } type Mutation { m: Int } extend schema { mutation: Writes } type Writes { w: Int }',
 ]
 
 # (label, SDL): must be rejected with one of the library's schema / SDL errors
@@ -31,6 +35,14 @@ INVALID_SDL = [
     ("extension-duplicate-enum-value", "type Query { a: E } enum E { A } extend enum E { A }"),
     ("extension-duplicate-union-member", "type Query { a: U } type A { x: Int } union U = A extend union U = A"),
     ("extension-duplicate-input-field", "type Query { a(i: I): Int } input I { x: Int } extend input I { x: Int }"),
+    # a member introduced twice by extensions (in two blocks, or twice in one) is a duplicate like any other
+    ("extension-new-enum-value-twice-two-blocks", "type Query { a: E } enum E { A } extend enum E { B } extend enum E { B }"),
+    ("extension-new-enum-value-twice-one-block", "type Query { a: E } enum E { A } extend enum E { B B }"),
+    ("extension-new-field-twice-two-blocks", "type Query { a: Int } extend type Query { b: Int } extend type Query { b: Int }"),
+    ("extension-new-union-member-twice-two-blocks", "type Query { a: U } type A { x: Int } type B { y: Int } union U = A extend union U = B extend union U = B"),
+    ("extension-new-input-field-twice-two-blocks", "type Query { a(i: I): Int } input I { x: Int } extend input I { y: Int } extend input I { y: Int }"),
+    ("extension-new-interface-field-twice-two-blocks", "type Query { a: Int } interface I { x: Int } extend interface I { y: Int } extend interface I { y: Int }"),
+    ("extension-interface-implemented-twice-two-blocks", "type Query { a: Int } interface I { a: Int } extend type Query implements I extend type Query implements I"),
     ("two-schema-definitions", "schema { query: Query } schema { query: Query } type Query { a: Int }"),
     ("schema-duplicate-operation", "schema { query: Query query: Query } type Query { a: Int }"),
     ("schema-unknown-root", "schema { query: Nope }"),
